@@ -650,6 +650,11 @@ pub fn check_c04(inst: &RefInstance, o: &Output, sd: &SchedData, out: &mut Vec<V
 pub fn check_c05(inst: &RefInstance, o: &Output, out: &mut Vec<Violation>) -> bool {
     let mut nontrivial = false;
     let by_id: BTreeMap<&str, &OutVehicle> = o.vehicles.iter().map(|v| (v.id.as_str(), v)).collect();
+    // The README lists vehicleCycles as "only if maintenance slots are given in input": an answer
+    // without any cycle for an instance without slots is not judged here.
+    if !inst.has_slots && o.cycles.iter().all(|(_, c)| c.iter().all(|x| x.is_empty())) {
+        return false;
+    }
     for (vt, cycles) in &o.cycles {
         if inst.type_by_id(vt).is_none() {
             out.push(viol("C05", "C05.type_unknown", format!("fleet of unknown type {}", vt)));
